@@ -59,6 +59,8 @@ def generate(seed, tier):
         return gen_reread(rng, tier)
     if r0 < 0.55:
         return gen_directory(rng, tier)
+    if r0 < 0.63:
+        return gen_reuse(rng, tier)
     n = rng.choice([1, 2, 2, 3, 3, 4])
     sess = [sl.gen_session(rng, tier, i) for i in range(n)]
     faults = []
@@ -116,6 +118,26 @@ def gen_directory(rng, tier):
                       "raw": sl.tfile(rng, [s for f in files for s in f["tb"]][:6],
                                       which == "insert_terminals")["raw"]}
     return d
+
+
+def gen_reuse(rng, tier):
+    """A tree object is handed to a writer (or to extraction / analysis) and then used again:
+    what the second call produces must be what it produces for that sentence in a fresh
+    process, where the first call never happened."""
+    w1 = rng.choice(["export", "tigerxml", "discobrackets", "brackets", "terminals",
+                     "extract", "gapdegree"])
+    cont = w1 == "brackets"
+    tb = sl.gen_tb(rng, tier, continuous=cont, nsent=rng.choice([1, 2]))
+    k = model.swarm_knobs(rng, tier, allow=("ascii", "xml", "paren", "latin1"), continuous=cont)
+    for s in tb:
+        for t in s["tokens"]:
+            if rng.random() < 0.2:
+                t[0] = rng.choice(model.W_XML + model.W_PAREN[:8])
+    second = rng.choice(["export", "tigerxml", "discobrackets", "terminals", "extract",
+                         "gapdegree", "trans+export"])
+    return {"mode": "reuse", "tb": tb, "first": w1, "second": second,
+            "first_opts": {"export_four": True} if w1 == "export" and rng.random() < 0.5 else {},
+            "shuffle": rng.randrange(1 << 30)}
 
 
 def gen_reread(rng, tier):
@@ -356,6 +378,76 @@ def execute_directory(sc, sim):
     return {"violations": viols, "stats": st.done(repr(shape), True, sample)}
 
 
+def reuse_ops(sc, with_first):
+    ops = []
+    for j, sent in enumerate(sc["tb"]):
+        ops.append(["build", "t", sent, sc["shuffle"] + j])
+        if with_first:
+            f = sc["first"]
+            if f == "extract":
+                ops += [["gnew", "g0"], ["extract", "t", "g0"]]
+            elif f == "gapdegree":
+                ops += [["task_new", "k0", "GapDegree"], ["task_run", "k0", "t"]]
+            else:
+                ops += [["sio", "a"], ["write", f, "t", "a", sc.get("first_opts", {})]]
+        ops.append(["mark", "second"])
+        x = sc["second"]
+        if x == "extract":
+            ops += [["gnew", "g"], ["extract", "t", "g"], ["gdump", "g"]]
+        elif x == "gapdegree":
+            ops += [["task_new", "k", "GapDegree"], ["task_run", "k", "t"], ["task_done", "k"]]
+        elif x == "trans+export":
+            ops += [["trans", "t", "root_attach", {}], ["sio", "b"],
+                    ["write", "export", "t", "b", {}], ["sval", "b"]]
+        else:
+            ops += [["sio", "b"], ["write", x, "t", "b", {}], ["sval", "b"]]
+    return ops
+
+
+def execute_reuse(sc, sim):
+    st = cm.Stats()
+    st.declare("object_reused_after_a_writer_or_consumer")
+    a = sim.run({"sessions": [{"id": "s", "ops": reuse_ops(sc, True), "on_error": "continue"}]})
+    b = sim.run({"sessions": [{"id": "s", "ops": reuse_ops(sc, False), "on_error": "continue"}]})
+    st.add_obs(a)
+    st.add_obs(b)
+    st.probe("object_reused_after_a_writer_or_consumer")
+    st.fault("history")
+
+    def second_parts(obs):
+        out, take = [], False
+        for r in obs["sessions"]["s"]:
+            if r["op"] == "mark":
+                take = True
+                continue
+            if r["op"] == "build":
+                take = False
+                continue
+            if take and r["op"] in ("sval", "gdump", "task_done", "write", "extract", "trans",
+                                    "task_run"):
+                if "exc" in r:
+                    out.append((r["op"], "raised", r["exc"]))
+                elif r["op"] == "trans":
+                    out.append((r["op"], "ok", None))
+                else:
+                    out.append((r["op"], "ok", r.get("ok"), r.get("out", "")))
+        return out
+    viols = []
+    first_failed = any("exc" in r for r in a["sessions"]["s"]
+                       if r["op"] in ("write", "extract", "task_run"))
+    pa, pb = second_parts(a), second_parts(b)
+    st.check("reuse_pairs")
+    if pa != pb and not (first_failed and sc["first"] == "brackets"):
+        where = next((x[0] for x, y in zip(pa, pb) if x != y), "length")
+        viols.append(cm.viol("C18/reuse/after-%s/later-use-differs" % sc["first"], second=sc["second"],
+                             step=where,
+                             with_first=repr(pa)[:300], fresh=repr(pb)[:300]))
+    shape = ("reuse", sc["first"], sc["second"], repr(sc.get("first_opts")))
+    sample = {"mode": "reuse", "first": sc["first"], "second": sc["second"],
+              "sentences": cm.tb_summary(sc["tb"])}
+    return {"violations": viols, "stats": st.done(repr(shape), True, sample)}
+
+
 def strip_ids(recs):
     from .. import treeview
     out = []
@@ -379,6 +471,8 @@ def execute(sc, sim):
         return execute_reread(sc, sim)
     if sc["mode"] == "directory":
         return execute_directory(sc, sim)
+    if sc["mode"] == "reuse":
+        return execute_reuse(sc, sim)
     st = cm.Stats()
     st.declare("three_plus_sessions_interleaved", "two_readers_same_format_alive",
                "history_length_3plus", "history_contains_failed_call", "cancellation_mid_file",
@@ -823,6 +917,17 @@ def cmp_seq(exp, got, dfmt, sc, tag, what, ignore_sid=None):
 
 # ---------------------------------------------------------------------------------- shrink
 def shrink_candidates(sc):
+    if sc["mode"] == "reuse":
+        for tb in model.shrink_treebank(sc["tb"]):
+            if tb:
+                c = model.clone(sc)
+                c["tb"] = tb
+                yield c
+        if sc.get("first_opts"):
+            c = model.clone(sc)
+            c["first_opts"] = {}
+            yield c
+        return
     if sc["mode"] == "directory":
         if len(sc["files"]) > 1:
             for i in range(len(sc["files"])):
